@@ -138,12 +138,12 @@ class C19(Prop):
                 orders = [gen.perm(rng, alts) for _ in range(nn)]
             orders = [list(o) for o in dict.fromkeys(map(tuple, orders))]
             rng.shuffle(orders)
-            yield {"kind": "profile", "alts": alts, "orders": orders}
+            yield gen.strict_case_extras(rng, {"kind": "profile", "alts": alts, "orders": orders})
 
     def run_impl(self, case):
         from preflibtools.properties.subdomains.ordinal.euclidean import is_one_euclidean
-        prof = [(tuple((a,) for a in o), 1) for o in case["orders"]]
-        inst = gen.make_ordinal(prof, alts=case["alts"], data_type="soc")
+        inst = gen.strict_case_instance(case, lambda i: is_one_euclidean(i, limit=60))
+        self.count("built:" + ("grown" if case.get("grow") else "direct") + ("+mult" if case.get("mults") else ""))
         from harness import ilpcap
         store = []
         with ilpcap.capture(store):
@@ -242,9 +242,14 @@ class C19(Prop):
         if case.get("pinned_ok"):
             return        # a regression-corpus case is reported as it is
         os_ = case["orders"]
+        yield from gen.strict_case_shrinks(case)
+        ms = case.get("mults")
         for i in range(len(os_)):
             if len(os_) > 1:
-                yield dict(case, orders=os_[:i] + os_[i + 1:])
+                c2 = dict(case, orders=os_[:i] + os_[i + 1:])
+                if ms:
+                    c2["mults"] = ms[:i] + ms[i + 1:]
+                yield c2
         m = len(case["alts"])
         if m > 2:
             o2 = [[a for a in o if a != m] for o in os_]
